@@ -341,7 +341,21 @@ pub fn gen_tree(t: &mut Tape, p: &SProfile) -> Tree {
             let ns = t.pick(p.max_steps + 1);
             let name = if dup { "same name".to_string() } else { decorate(t, &base, p, excluded) };
             let l = *line;
-            let steps = (0..ns).map(|i| mkstep(decorate(t, &format!("{base}.st{i} arg{i}"), p, excluded), l + 1 + i, t.pick(3))).collect();
+            let steps = (0..ns)
+                .map(|i| {
+                    let mut st = mkstep(decorate(t, &format!("{base}.st{i} arg{i}"), p, excluded), l + 1 + i, t.pick(3));
+                    if p.decorate && pct(t, 15) {
+                        st.docstring = Some(format!("doc of {base}\n  indented {}\n", DECOR[t.pick(DECOR.len())]));
+                    } else if p.decorate && pct(t, 15) {
+                        st.table = Some(gherkin::Table {
+                            rows: vec![vec!["col".into(), "é wide 日本".into()], vec![DECOR[t.pick(DECOR.len())].into(), "1".into()]],
+                            span: gherkin::Span::default(),
+                            position: gherkin::LineCol { line: l + 1 + i, col: 7 },
+                        });
+                    }
+                    st
+                })
+                .collect();
             let mut tags = vec![];
             if pct(t, p.p_allow_skipped) {
                 tags.push("allow.skipped".to_string());
